@@ -15,7 +15,10 @@ tbl read  <filter> <cmp> <verify:0|1> <file hex> <op> …                       
           o:<key>           OffsetOf                        → ok:<n> | corrupt
           it                full forward iteration          → it:<k>=<v>,… | corrupt
           r:<start>:<limit> iteration of a range (`nil` = open end)
-     (every answer is `corrupt` when the model's `Table.open` fails, as `r.err` answers every call)
+          e                 class of the reader's permanent error   → e:ok | e:footer | e:block
+                            (`e:footer`: file too small, bad magic, undecodable or out-of-file handle — the kinds
+                            "table" / "table-footer" of `table.ErrCorrupted`; `e:block`: "index-block" / "meta-block")
+     (every other answer is `corrupt` when the model's `Table.openE` fails, as `r.err` answers every call)
 tbl handles <filter> <cmp> <file hex>      → d:<off>:<len> … [f:<off>:<len>] m:<off>:<len> i:<off>:<len>
 tbl raw <verify:0|1> <file hex> <offset> <length>                                       → ok:<payload hex> | corrupt
 tbl block <restartInterval> <k1> <v1> …                                                 → <block hex>
@@ -168,6 +171,7 @@ def runOp (t : TableR) (op : String) : Option String :=
     | .ok r => pure s!"ok:{r}"
     | .notFound => pure "nf"
     | .corrupt => pure "corrupt"
+  | ["e"] => pure "e:ok"
   | ["it"] =>
     match t.entries with
     | some kvs => pure s!"it:{showKVs kvs}"
@@ -235,9 +239,15 @@ def handleTbl : List String → Option String
     pure (toHexField (Table.write (mkCfg bs ri f lg c) kvs))
   | "read" :: f :: c :: v :: file :: ops => do
     let f ← filterById f; let c ← cmpById c; let v ← parseNat? v; let file ← fromHex file
-    match Table.open (mkCfg 0 1 f 0 c) (v != 0) file with
-    | none => pure (" ".intercalate (ops.map fun _ => "corrupt"))   -- `r.err` answers every call
-    | some t =>
+    match Table.openE (mkCfg 0 1 f 0 c) (v != 0) file with
+    | .error e =>                                                    -- `r.err` answers every call
+      let cls := match e with
+        | .footer => "e:footer"
+        | .metaBlock => "e:block"
+        | .indexBlock => "e:block"
+        | .panics => "e:panic"
+      pure (" ".intercalate (ops.map fun op => if op = "e" then cls else "corrupt"))
+    | .ok t =>
       let rs ← ops.mapM (runOp t)
       pure (" ".intercalate rs)
   | ["handles", f, c, file] => do
